@@ -372,6 +372,9 @@ func (u *Universe) ordaFuncs(keep func(pkgPath string) bool) []*ssa.Function {
 		if !isOrda(path) || (keep != nil && !keep(path)) {
 			continue
 		}
+		if chosen, ok := u.SSA[path]; ok && chosen != f.Pkg {
+			continue // with test packages loaded a package exists twice: only the chosen variant counts
+		}
 		if isTestFile(u.Fset, f.Pos()) {
 			continue
 		}
